@@ -56,6 +56,14 @@ is_closed = Fn(F, ["impl ChannelError", "channel_is_closed"], ret="r",
     ensures=[Clause("inprocess.ChannelError.channel_is_closed/ensures.only_closed", "r == (*self is ChannelClosedError)", ["C19", "C03"])],
     safety_props=["C19"])
 
+consume = Fn(F, ["impl OsIpcReceiver", "consume"], ret="r", extra_params=TX, rename="consume_impl",
+    ensures=[Clause("inprocess.consume/ensures.receiver_moves_out_of_the_handle_it_was_sent_from",
+                    "r.receiver.v == self.receiver.v && (self.receiver.v matches Some(rx) ==> final(x).moved_out == old(x).moved_out.insert(rx.chan))\n"
+                    "&& final(x).q == old(x).q", ["C19", "C04"])],
+    rules=[Rule("D48", r"self\s*\.receiver\s*\.borrow_mut\(\)\s*\.take\(\)", "refcell_take(&self.receiver, %s)" % XG,
+                "RefCell<Option<T>>::borrow_mut().take(): content moves out, emptiness recorded in the ghost world")],
+    safety_props=["C19"])
+
 set_add = Fn(F, ["impl OsIpcReceiverSet", "add"], ret="r",
     requires=[Clause("inprocess.set.add/requires.wf", "old(self).receiver_ids@.len() == old(self).receivers@.len() && old(self).incrementor.start < u64::MAX\n"
                      "&& (forall|i: int| 0 <= i < old(self).receiver_ids@.len() ==> (#[trigger] old(self).receiver_ids@[i]) < old(self).incrementor.start)")],
@@ -110,10 +118,10 @@ snd_connect = Fn(F, ["impl OsIpcSender", "connect"], ret="r", extra_params=TR,
 UNIT = Unit(
     name="u13_inprocess",
     prelude=["units/common.rs", "units/u13_inprocess.rs"],
-    groups=[("impl OsIpcReceiver", [recv, try_recv, try_recv_timeout]), ("impl OsIpcSender", [send, max_frag, snd_connect]), ("impl OsIpcOneShotServer", [srv_new, srv_accept]), ("impl OsIpcReceiverSet", [set_add]), ("impl OsOpaqueIpcChannel", [opaque_new]),
+    groups=[("impl OsIpcReceiver", [recv, try_recv, try_recv_timeout, consume]), ("impl OsIpcSender", [send, max_frag, snd_connect]), ("impl OsIpcOneShotServer", [srv_new, srv_accept]), ("impl OsIpcReceiverSet", [set_add]), ("impl OsOpaqueIpcChannel", [opaque_new]),
             ("impl ipc::IpcError", [conv_ipc]), ("impl ipc::TryRecvError", [conv_try]),
             ("impl ChannelError", [is_closed])],
-    props=["C19", "C01", "C02", "C03", "C09", "C10"],
+    props=["C19", "C01", "C02", "C03", "C04", "C09", "C10"],
     prelude_clauses={"inprocess.set.add/requires.id_counter_not_exhausted": []},
     kernel_clauses=[
         "crossbeam unbounded channels are ideal FIFO queues: send appends or fails iff the receiver is gone; recv/try_recv/recv_timeout take the oldest message, report Disconnected only when the queue is empty and no sender is left",
